@@ -439,6 +439,60 @@ int main(void) {
     fd_lo = nullfd + 1;
 
     while (ltv_next()) {
+        if (ltv_ntok == 7 && 0 == strcmp(ltv_tok[0], "big")) {
+            /* big <filelen> <off> <len> <taillen> <peek_n> <read_n>
+             * file chunk (off,len) of a SPARSE file of filelen bytes (byte i = 'A'+i%23 for off <= i < off+64 and
+             * for the last 64 bytes of the range, 0 elsewhere) followed by a memory chunk of taillen bytes
+             * ('a'+i%26): peek peek_n, read read_n, then report the length left.  Lengths beyond 2^32 are the
+             * point: no octet of the file is written except the two marker blocks. */
+            const off_t flen = (off_t)atoll(ltv_tok[1]), off = (off_t)atoll(ltv_tok[2]), len = (off_t)atoll(ltv_tok[3]);
+            const size_t tl = (size_t)atol(ltv_tok[4]);
+            const uint32_t pn = (uint32_t)atol(ltv_tok[5]), rn = (uint32_t)atol(ltv_tok[6]);
+            if (flen < 0 || off < 0 || len < 0 || off + len > flen || tl > (1u << 20) || pn > (1u << 22) || rn > (1u << 22)) {
+                puts("bad-op"); continue;
+            }
+            char p[700]; snprintf(p, sizeof(p), "%s/big", srcdir);
+            int fd = open(p, O_WRONLY | O_CREAT | O_TRUNC, 0600);
+            if (fd < 0 || 0 != ftruncate(fd, flen)) { puts("big:nofile"); if (fd >= 0) close(fd); continue; }
+            char mk[64];
+            for (int i = 0; i < 64; ++i) mk[i] = (char)('A' + i % 23);
+            if (len >= 64) {
+                ssize_t w = pwrite(fd, mk, 64, off); (void)w;
+                w = pwrite(fd, mk, 64, off + len - 64); (void)w;
+            }
+            close(fd);
+            chunkqueue_chunk_pool_clear();
+            chunkqueue_set_tempdirs_default_reset();
+            chunkqueue_set_chunk_size(0);
+            chunkqueue *bq = chunkqueue_init(NULL);
+            buffer *fn = buffer_init();
+            buffer_copy_string_len(fn, p, strlen(p));
+            chunkqueue_append_file(bq, fn, off, len);
+            buffer_free(fn);
+            char *tail = malloc(tl + 1);
+            for (size_t i = 0; i < tl; ++i) tail[i] = (char)('a' + i % 26);
+            if (tl) chunkqueue_append_mem(bq, tail, tl);
+            free(tail);
+            printf("len:%lld ", (long long)chunkqueue_length(bq));
+            {
+                char *buf = malloc(pn ? pn : 1);
+                char *data = buf; uint32_t dlen = pn;
+                int rc = chunkqueue_peek_data(bq, &data, &dlen, errh, 0);
+                printf("pk:%d,%u,%08lx ", rc, dlen, (unsigned long)crc32(crc32(0L, Z_NULL, 0), (const Bytef *)data, dlen));
+                free(buf);
+            }
+            {
+                char *buf = malloc(rn ? rn : 1);
+                int rc = ((off_t)rn <= chunkqueue_length(bq)) ? chunkqueue_read_data(bq, buf, rn, errh) : -2;
+                if (0 == rc) printf("rd:0,%08lx ", (unsigned long)crc32(crc32(0L, Z_NULL, 0), (const Bytef *)buf, rn));
+                else printf("rd:%d ", rc);
+                free(buf);
+            }
+            printf("left:%lld out:%lld\n", (long long)chunkqueue_length(bq), (long long)bq->bytes_out);
+            chunkqueue_free(bq);
+            unlink(p);
+            continue;
+        }
         if (ltv_ntok < 7 || 0 != strcmp(ltv_tok[0], "seq")) { puts("bad-op"); continue; }
         size_t chunksz = (size_t)atol(ltv_tok[1]);
         off_t tmpsz = (off_t)atoll(ltv_tok[2]);
